@@ -305,6 +305,16 @@ def prove_public_api(src_root, ex: Explorer):
     ex.run(path, 'public-api')
 
 
+def prove_friend_changes_relies(src_root, ex: Explorer):
+    """The FRIEND reason follows the friends list through the change detection of the user management job (C08.changes.*: every change is
+    detected because the job remembers a COPY of the list), discharged here as well."""
+    from contracts import C08
+    C08.prove_changes(src_root, ex)
+    for ob in ex.obligations:
+        if ob.name.startswith('C08.'):
+            ob.name = 'C15.friends.' + ob.name[4:]
+
+
 def prove_request_tracking(src_root, ex: Explorer):
     # 'cancelled': the worker is cancelled while it waits for the answer (CLOSED: C15.closed.drop cancels and awaits it) - the cancellation
     # must leave _request_tracking, it is not an outcome to retry
@@ -426,8 +436,12 @@ def prove_transfer_reason(src_root, ex: Explorer, res):
         it = mk(src_root, ctx)
         it.sym_containers = False
         calls = []
-        um = Stub('user_manager', track_user=Recorder('track', fn=lambda it2, a, k: calls.append(('track', a[0], a[1].name)), is_async=True),
-                  untrack_user=Recorder('untrack', fn=lambda it2, a, k: calls.append(('untrack', a[0], a[1].name)), is_async=True))
+        # the users may be tracked already - for ANOTHER reason (friend, requested): the TRANSFER reason is added regardless, otherwise
+        # untracking that other reason ends the tracking while a transfer is unfinished
+        um = Stub('user_manager', track_user=Recorder('track', fn=lambda it2, a, k: calls.append(('track', a[0], a[1].name)), is_async=True, params=('username', 'flag')),
+                  untrack_user=Recorder('untrack', fn=lambda it2, a, k: calls.append(('untrack', a[0], a[1].name)), is_async=True, params=('username', 'flag')),
+                  is_tracked=Recorder('is_tracked', ret=True), get_tracking_flags=Recorder('get_tracking_flags', ret=flag(it, 2)),
+                  get_tracking_state=Recorder('get_tracking_state', ret=enum(it, UMODEL, 'TrackingState', 'TRACKED')))
         n = ctx.choose(3, 'n') + 1
         users = ['u0', 'u1']
         ts = []
@@ -448,7 +462,7 @@ def prove_transfer_reason(src_root, ex: Explorer, res):
 
 
 def items(src_root, tier):
-    return [('public', None), ('step', None), ('exit-atomic', None), ('registry', None), ('request', None), ('closed', None), ('scan', None), ('transfer', None)]
+    return [('friends-relies', None), ('public', None), ('step', None), ('exit-atomic', None), ('registry', None), ('request', None), ('closed', None), ('scan', None), ('transfer', None)]
 
 
 def run_item(src_root, item, tier):
@@ -468,6 +482,8 @@ def run_item(src_root, item, tier):
             prove_closed(src_root, ex)
         elif kind == 'public':
             prove_public_api(src_root, ex)
+        elif kind == 'friends-relies':
+            prove_friend_changes_relies(src_root, ex)
         elif kind == 'scan':
             scan_flag_writers(src_root, ex)
         elif kind == 'transfer':
